@@ -120,7 +120,12 @@ impl<'a> Gen<'a> {
     /// whether it contains a forward reference at this scope level (through loop/if and
     /// nested scopes alike: any of them makes this level's work-list retry something).
     fn scoped_body(&mut self, depth: usize, fault: bool, in_template: bool, no_assign_in: bool) -> (Vec<Stmt>, bool) {
-        let plain = self.class == "plain";
+        // hazard separation between the three program classes:
+        //  plain                  neither hazard
+        //  defer-read             assignments may follow a faulted construct at its level
+        //  global-assign-faulted  faulted loop/if bodies may assign
+        let enforce_no_assign_after = self.class != "defer-read";
+        let faulted_transparent_must_not_assign = self.class != "global-assign-faulted";
         let mut no_assign = no_assign_in;
         let mut b = Vec::new();
         let n = 1 + self.rng.usize(5);
@@ -128,7 +133,7 @@ impl<'a> Gen<'a> {
         for _ in 0..n {
             match self.rng.below(12) {
                 0..=2 => {
-                    if plain && no_assign {
+                    if no_assign {
                         b.push(self.probe());
                     } else {
                         b.push(self.var_stmt());
@@ -140,13 +145,13 @@ impl<'a> Gen<'a> {
                     let (body, f) = self.scoped_body(depth + 1, fault, in_template, false);
                     if f {
                         faulted = true;
-                        no_assign = true;
+                        no_assign |= enforce_no_assign_after;
                     }
                     b.push(Stmt::Group { attrs, body });
                 }
                 6 | 7 if depth < 3 => {
                     // transparent constructs: their assignments land at this scope level
-                    let (body, f) = if plain {
+                    let (body, f) = if faulted_transparent_must_not_assign {
                         if fault && self.rng.chance(1, 2) {
                             // faulted, therefore non-assigning
                             self.scoped_body(depth + 1, true, in_template, true)
@@ -158,7 +163,7 @@ impl<'a> Gen<'a> {
                     };
                     if f {
                         faulted = true;
-                        no_assign = true;
+                        no_assign |= enforce_no_assign_after;
                     }
                     if self.rng.chance(1, 2) {
                         let count = 1 + self.rng.below(3) as u32;
@@ -178,7 +183,7 @@ impl<'a> Gen<'a> {
                         if self.template_faulted[*tmpl] {
                             if fault {
                                 faulted = true;
-                                no_assign = true;
+                                no_assign |= enforce_no_assign_after;
                             } else {
                                 // this body was promised to be free of forward references
                                 keep = false;
@@ -190,7 +195,7 @@ impl<'a> Gen<'a> {
                 9 | 10 if fault => {
                     b.push(self.fault());
                     faulted = true;
-                    no_assign = true;
+                    no_assign |= enforce_no_assign_after;
                 }
                 _ => b.push(Stmt::Shape),
             }
@@ -336,6 +341,11 @@ struct Model<'a> {
     scopes: Vec<BTreeMap<String, String>>,
     templates: &'a [Vec<Stmt>],
     obs: Vec<(String, String)>,
+    /// per observation: was it made inside a construct whose execution reaches a forward
+    /// reference (so svgdx re-evaluates that construct as a whole)?
+    inside: Vec<bool>,
+    /// open constructs: (reached a forward reference, indices of observations made inside)
+    frames: Vec<(bool, Vec<usize>)>,
     steps: u32,
 }
 
@@ -353,6 +363,15 @@ impl<'a> Model<'a> {
             Expr::Concat(n, s) => format!("{}{}", self.get(n).unwrap_or_else(|| format!("${{{n}}}")), s),
             Expr::Inc(n, k) => (self.num(n)? + k).to_string(),
         })
+    }
+    fn close_frame(&mut self) {
+        if let Some((reached, idxs)) = self.frames.pop() {
+            if reached {
+                for i in idxs {
+                    self.inside[i] = true;
+                }
+            }
+        }
     }
     fn set(&mut self, k: &str, v: String) {
         self.scopes.last_mut().unwrap().insert(k.to_string(), v);
@@ -386,11 +405,18 @@ impl<'a> Model<'a> {
                     for n in NAMES {
                         t.push_str(&format!("{n}={};", self.get(n).unwrap_or_else(|| format!("${{{n}}}"))));
                     }
+                    let idx = self.obs.len();
                     self.obs.push((key, t));
+                    self.inside.push(false);
+                    for f in self.frames.iter_mut() {
+                        f.1.push(idx);
+                    }
                 }
                 Stmt::Group { attrs, body } => {
                     self.scopes.push(attrs.iter().cloned().collect());
+                    self.frames.push((false, vec![]));
                     self.exec(body, inst)?;
+                    self.close_frame();
                     self.scopes.pop();
                 }
                 Stmt::Reuse { tmpl, inst: i, attrs } => {
@@ -406,36 +432,49 @@ impl<'a> Model<'a> {
                     self.scopes.push(sc);
                     self.scopes.push(BTreeMap::new());
                     let t = self.templates.get(*tmpl)?;
+                    self.frames.push((false, vec![]));
                     self.exec(t, Some(*i))?;
+                    self.close_frame();
                     self.scopes.pop();
                     self.scopes.pop();
                 }
                 Stmt::Loop { count, body } => {
+                    self.frames.push((false, vec![]));
                     for _ in 0..*count {
                         self.exec(body, inst)?;
                     }
+                    self.close_frame();
                 }
                 Stmt::IfLt { name, k, body } => {
                     if self.num(name)? < *k {
+                        self.frames.push((false, vec![]));
                         self.exec(body, inst)?;
+                        self.close_frame();
                     }
                 }
-                Stmt::Fault(_) | Stmt::Shape => {}
+                Stmt::Fault(_) => {
+                    for f in self.frames.iter_mut() {
+                        f.0 = true;
+                    }
+                }
+                Stmt::Shape => {}
             }
         }
         Some(())
     }
 }
 
-pub fn model(scn: &Scn) -> Option<Vec<(String, String)>> {
+pub fn model(scn: &Scn) -> Option<(Vec<(String, String)>, Vec<bool>)> {
     let mut m = Model {
         scopes: vec![BTreeMap::new()],
         templates: &scn.templates,
         obs: Vec::new(),
+        inside: Vec::new(),
+        frames: Vec::new(),
         steps: 0,
     };
     m.exec(&scn.body, None)?;
-    Some(m.obs)
+    Some((m.obs, m.inside))
 }
 
 /// probe observations of an output, in output order
@@ -512,7 +551,7 @@ impl Engine for C15 {
         let parts = 1 + g.rng.usize(3);
         for _ in 0..parts {
             let (b, f) = g.scoped_body(0, true, false, no_assign);
-            no_assign |= f;
+            no_assign |= f && class != "defer-read";
             body.extend(b);
         }
         // trailing probe reads every name
@@ -536,7 +575,7 @@ impl Engine for C15 {
                 return res;
             }
         };
-        let expect = match model(&scn) {
+        let (expect, expect_inside) = match model(&scn) {
             Some(m) => m,
             None => {
                 res.stats.probe("program_outside_model");
@@ -588,6 +627,22 @@ impl Engine for C15 {
                         // first differing observation
                         let mut what = String::from("different number of probe outputs");
                         let mut var = "count".to_string();
+                        let mut place = "outside";
+                        // a probe key is "inside" if any expected observation with that key was
+                        // made inside a construct whose execution reaches a forward reference
+                        let place_of = |key: &str| -> &'static str {
+                            if expect.iter().zip(expect_inside.iter()).any(|((k, _), ins)| k == key && *ins) {
+                                "inside"
+                            } else {
+                                "outside"
+                            }
+                        };
+                        if got.len() > expect.len() {
+                            if let Some(x) = got.iter().find(|(k, _)| !expect.iter().any(|(kk, _)| kk == k)) {
+                                what = format!("probe {} was rendered although lexically its condition is false", x.0);
+                                place = "extra";
+                            }
+                        }
                         for (i, e) in expect.iter().enumerate() {
                             match got.get(i) {
                                 Some(g) if g == e => continue,
@@ -604,10 +659,19 @@ impl Engine for C15 {
                                         var = "order".into();
                                     }
                                     what = format!("probe {} printed [{}] but lexical scoping gives {} [{}]", g.0, g.1, e.0, e.1);
+                                    place = if !expect.iter().any(|(k, _)| k == &g.0) {
+                                        // a probe the lexical model never executes was rendered
+                                        "extra"
+                                    } else if place_of(&e.0) == "inside" || place_of(&g.0) == "inside" {
+                                        "inside"
+                                    } else {
+                                        "outside"
+                                    };
                                     break;
                                 }
                                 None => {
                                     what = format!("probe {} missing from output", e.0);
+                                    place = place_of(&e.0);
                                     break;
                                 }
                             }
@@ -615,8 +679,8 @@ impl Engine for C15 {
                         let _ = var;
                         res.violation(
                             "scoping/probe-differs-from-lexical-model",
-                            &format!("c15:probe-differs:{variant}:{}", scn.class),
-                            format!("{variant} variant: {what}; document:\n{}", shorten(doc, 1500)),
+                            &format!("c15:probe-differs:{variant}:{}:{place}", scn.class),
+                            format!("{variant} variant: {what} (probe is {place} a re-evaluated construct); document:\n{}", shorten(doc, 1500)),
                         );
                     }
                 }
